@@ -1003,6 +1003,11 @@ func (s *State) logEntry(idx Value) *LogEntry {
 		unsup("symbolic ghost-log index")
 	}
 	k := int(i.Val) + s.logBase()
+	if s.inOld > 0 && s.fullLog != nil && k >= 0 && k >= len(s.log) && k < len(s.fullLog) {
+		// inside old(): an entry recorded after the old state is still the same immutable record (its arguments
+		// are values, not heap reads); only logLen() is taken at the old state
+		return &s.fullLog[k]
+	}
 	if k < 0 || k >= len(s.log) {
 		// unspecified entry
 		return &LogEntry{Callee: "none", Arr: &ArrVar{Name: s.freshName("nolog"), W: 8}, Off: Const(64, 0), N: s.freshVar("nolog.n", BV(64)), RetN: s.freshVar("nolog.r", BV(64)), Err: s.symValue(errorType(), "nolog.err")}
